@@ -187,3 +187,5 @@ func forall(lo, hi int, f func(int) bool) bool {
 //@   ensures result1 == nil ==> forall(0, old(len(s.state.completedSnapshots)), func(j int) bool {
 //@           return exists(0, len(s.state.completedSnapshots), func(k int) bool { return s.state.completedSnapshots[k].id >= old(s.state.completedSnapshots)[j].id }) })
 //@   ensures result1 == nil ==> exists(0, len(s.state.completedSnapshots), func(k int) bool { return s.state.completedSnapshots[k].id >= snap.id })
+//@   loop 0:
+//@     invariant superseded == exists(0, idx_, func(j int) bool { return s.state.completedSnapshots[j].id > snap.id })
